@@ -67,7 +67,10 @@ def _gen_doc(rng, tag):
 def _gen_member(rng, name, kind, side, level, cfg, like=None):
     tag = f"{side} {name}"
     if kind == "func":
-        deco = rng.choice([None, None, None, "staticmethod", "classmethod"]) if level > 0 else None
+        deco = rng.choice([None, None, None, "staticmethod", "classmethod", "property"]) if level > 0 and side == "rt" else (rng.choice([None, None, "staticmethod", "classmethod"]) if level > 0 else None)
+        if deco == "property":
+            # a property is an attribute for Griffe: stubs declaring `name: T` are of the same kind
+            return {"k": "func", "name": name, "params": [["self", None, False]], "ret": rng.choice(pysrc.ANNS) if rng.random() < 0.6 else None, "doc": _gen_doc(rng, tag), "deco": "property"}
         m = {"k": "func", "name": name, "params": _gen_params(rng, level > 0 and deco != "staticmethod", like["params"] if like and like["k"] == "func" else None), "ret": rng.choice(pysrc.ANNS) if rng.random() < 0.6 else None, "doc": _gen_doc(rng, tag)}
         if deco:
             m["deco"] = deco
@@ -246,8 +249,15 @@ def _sig(params, ret):
     return {"params": [[p[0], p[1]] for p in params], "returns": ret}
 
 
+def _as_model(m):
+    if m["k"] == "func" and m.get("deco") == "property":
+        return {"k": "attr", "name": m["name"], "ann": m["ret"], "value": None, "doc": m["doc"]}
+    return m
+
+
 def exp_alone(m, side):
     """Normalised expectation for a member that exists on one side only."""
+    m = _as_model(m)
     k = m["k"]
     rt = True if side == "rt" else ANY
     if k == "func":
@@ -284,6 +294,8 @@ def _merge_sig(rt_params, rt_ret, st_params, st_ret):
 
 def exp_container(rt, st, nested_stub_only=False):
     out = {}
+    rt = [_as_model(m) for m in rt]
+    st = [_as_model(m) for m in st]
     rt_by = {m["name"]: m for m in rt}
     for m in rt:
         out[m["name"]] = exp_alone(m, "rt")
